@@ -39,9 +39,16 @@ def c01(tier):
     tags = ['C01']
     if tier == 'quick':
         specs = [recv_spec('recv-N5', tags, N=5), recv_spec('recv-N6-nonfin', tags, N=6, first_nonfin=True, no_rsv=True),
-                 recv_spec('recv-N6-nonfin-bytewise', tags, N=6, first_nonfin=True, no_rsv=True, cuts='bytewise')]
+                 recv_spec('recv-N6-nonfin-bytewise', tags, N=6, first_nonfin=True, no_rsv=True, cuts='bytewise'),
+                 recv_spec('frag-text-L3', tags, family=dict(opcode=1, L=3, max_frags=3)),
+                 recv_spec('frag-binary-L2-pong', tags, family=dict(opcode=2, L=2, max_frags=3, ctrl=10), cuts='bytewise')]
     else:
-        specs = [recv_spec('recv-N7', tags, N=7), recv_spec('recv-N9-nonfin', tags, N=9, first_nonfin=True, no_rsv=True)]
+        specs = [recv_spec('recv-N7', tags, N=7), recv_spec('recv-N9-nonfin', tags, N=9, first_nonfin=True, no_rsv=True),
+                 recv_spec('recv-N7-nonfin-bytewise', tags, N=7, first_nonfin=True, no_rsv=True, cuts='bytewise'),
+                 recv_spec('recv-N5-allcuts', tags, N=5, cuts='sym'),
+                 recv_spec('frag-text-L4', tags, family=dict(opcode=1, L=4, max_frags=4)),
+                 recv_spec('frag-text-L3-tail2', tags, family=dict(opcode=1, L=3, max_frags=3, tail_sym=2), cuts='bytewise'),
+                 recv_spec('frag-binary-L3-pong', tags, family=dict(opcode=2, L=3, max_frags=3, ctrl=10), cuts='bytewise')]
     return run_property('C01', tier, specs, 'model_checking', 'delivery once/in order/byte-exact',
                         ENV_ASSUMPTIONS, RECV_FUNCS)
 
@@ -81,10 +88,13 @@ def c05(tier):
     if tier == 'quick':
         specs = [recv_spec('recv-text-N6-bytewise', tags, N=6, first_opcodes=[1], no_rsv=True, cuts='bytewise'),
                  recv_spec('frag-text-L3', tags + ['C01'], family=dict(opcode=1, L=3, max_frags=3), cuts='bytewise'),
+                 recv_spec('frag-text-L2-ping1', tags + ['C01', 'C04', 'C14'], family=dict(opcode=1, L=2, max_frags=3, ctrl_len=1), cuts='bytewise'),
                  recv_spec('recv-close-N6', tags + ['C01', 'C04'], N=6, first_opcodes=[8], no_rsv=True)]
     else:
         specs = [recv_spec('recv-text-N8-bytewise', tags, N=8, first_opcodes=[1], no_rsv=True, cuts='bytewise'),
                  recv_spec('frag-text-L4', tags + ['C01'], family=dict(opcode=1, L=4, max_frags=4), cuts='bytewise'),
+                 recv_spec('frag-text-L3-ping2', tags + ['C01', 'C04', 'C14'], family=dict(opcode=1, L=3, max_frags=3, ctrl_len=2), cuts='bytewise'),
+                 recv_spec('frag-text-L3-pong1', tags + ['C01', 'C04'], family=dict(opcode=1, L=3, max_frags=3, ctrl_len=1, ctrl=10)),
                  recv_spec('frag-text-L3-tail2', tags + ['C01'], family=dict(opcode=1, L=3, max_frags=3, tail_sym=2), cuts='bytewise'),
                  recv_spec('recv-text-N9-nonfin-bytewise', tags, N=9, first_opcodes=[1], first_nonfin=True, no_rsv=True, cuts='bytewise'),
                  recv_spec('recv-text-N6-allcuts', tags, N=6, first_opcodes=[1], no_rsv=True, cuts='sym'),
@@ -152,6 +162,7 @@ def c03(tier):
              build_spec('pong', build.CTRL_LENS + [126]),
              build_spec('close', [0, 1, 3, 122, 123, 124, 125, 200]),
              build_spec('close_text', [0, 1, 2]),
+             build_spec('close_text_long', [30, 31, 41, 42, 61, 62, 123, 124]),
              build_spec('types', [0]),
              build_spec('json', [0])]
 
@@ -295,6 +306,12 @@ def c13(tier):
                                server=dict(kind='grammar', K=2 if tier == 'quick' else 3, alphabet=['text', 'ping', 'frag', 'close']),
                                connect=dict(poll=0.0), abandon_mechanism=mech, record_selector=True,
                                app=dict(actions=['abandon', 'close'], max_actions=2)))
+    for mech in ['break', 'gen.close', 'with']:
+        specs.append(life_spec('abandon-%s-after-send-fault' % mech.replace('.', '-'), tags,
+                               'as above with one symbolic socket-write fault before the abandonment (a failed application send / pong, then abandon)',
+                               server=dict(kind='grammar', K=2, alphabet=['text', 'ping']), connect=dict(poll=1e9), abandon_mechanism=mech,
+                               record_selector=True, app=dict(actions=['abandon', 'send_text'], max_actions=2),
+                               fault=dict(ops=['sendall'], kinds=['oserror', 'exception'], max=1, skip={'sendall': 1})))
     return run_property('C13', tier, specs, 'model_checking', 'abandoning the loop releases the socket', ENV_ASSUMPTIONS + [
         'CPython reference counting finalises a dropped generator immediately (break/raise rely on it); other interpreters are outside'],
         LIFE_FUNCS)
